@@ -141,7 +141,15 @@ def parser_case(draw, tier="quick"):
             base = det_serialize(make_rtp(c), make_map(c["ext"]["ids"]))
         except Exception:
             base = det_serialize(make_rtp({**c, "ext": {"ids": {}, "values": {}}}), R.HeaderExtensionsMap())
-        if mode == "crafted":
+        if mode == "crafted" and draw(st.integers(0, 3)) == 0:
+            # nothing but a header: padding / extension / CSRC bits set with no bytes behind them
+            cc = draw(st.integers(0, 3))
+            first = 0x80 | (0x20 if draw(st.booleans()) else 0) | (0x10 if draw(st.integers(0, 2)) == 0 else 0) | cc
+            base = struct.pack("!BBHLL", first, c["pt"], c["seq"], c["ts"], c["ssrc"]) + b"\0\0\0\1" * cc
+            if first & 0x10:
+                base += struct.pack("!HH", 0xBEDE, 0)
+            base += bytes(draw(st.sampled_from([b"", b"\x00", b"\x01", b"\x02", b"\xff"])))
+        elif mode == "crafted":
             # extension block with arbitrary (id, length, value) elements: wrong sizes for the configured URIs
             one = target != "rtp2"
             elems = b""
@@ -288,13 +296,13 @@ def injection(draw, nchan):
         op.update(k=draw(st.integers(0, 5)), stream=draw(U16), seq=draw(U16), ppid=draw(st.sampled_from([50, 51, 53, 56, 57, 0])),
                   flags=draw(st.integers(0, 7)), body=draw(st.binary(max_size=30)).hex())
     elif kind in ("stale-sack", "samecum-sack", "sack-beyond"):
-        op.update(k=draw(st.integers(1, 5)), rwnd=draw(U32),
+        op.update(k=draw(st.one_of(st.integers(1, 5), st.sampled_from([1000, 2**20, 2**31 - 1, 2**31]))), rwnd=draw(U32),
                   gaps=draw(st.one_of(st.lists(st.tuples(U16, U16).map(list), max_size=8),
                                       st.lists(st.tuples(st.integers(0, 40), st.integers(0, 40)).map(list), max_size=40),
                                       st.just([[1, 65535]] * 280))),
                   dups=draw(st.lists(U32, max_size=5)))
     elif kind in ("old-fwd", "fwd-beyond"):
-        op.update(k=draw(st.integers(0, 5)), streams=draw(st.lists(st.tuples(U16, U16).map(list), max_size=6)))
+        op.update(k=draw(st.one_of(st.integers(0, 5), st.sampled_from([1000, 2**20, 2**31 - 2, 2**31 - 1]))), streams=draw(st.lists(st.tuples(U16, U16).map(list), max_size=6)))
     elif kind == "data-new-stream":
         op.update(stream=1000 + draw(st.integers(0, 9)), seq=draw(st.sampled_from([0, 0, 1, 65535])),
                   flags=draw(st.sampled_from([3, 7, 7, 2, 1, 0, 5, 6])),
@@ -391,6 +399,10 @@ def build_injection(sess: Session, op: dict):
     if kind in ("stale-sack", "samecum-sack", "sack-beyond"):
         c = S.SackChunk()
         k = max(1, op.get("k", 1))
+        if kind == "stale-sack":
+            # "older" is only defined below half the sequence space, and the association moves on while the datagram
+            # is in flight: stay well inside
+            k = min(k, 2**30)
         c.cumulative_tsn = (rx._last_sacked_tsn + {"stale-sack": -k, "samecum-sack": 0, "sack-beyond": k}[kind]) % M
         c.advertised_rwnd = op.get("rwnd", 0) & 0xFFFFFFFF
         c.gaps = [(g[0] & 0xFFFF, g[1] & 0xFFFF) for g in op.get("gaps", []) if isinstance(g, (list, tuple)) and len(g) == 2][:290]
